@@ -137,8 +137,8 @@ def _from_vectors(V):
                  z3.And(*[Z(R[i][j]) == sum(Z(facts[0]["R"][i][k]) * Z(facts[1]["R"][k][j]) for k in range(3)) for i in range(3) for j in range(3)]))
         V.ensure("post[antiparallel]/helper-chain:v1->helper->v2",
                  z3.BoolVal(facts[0]["v1"] is not None and all(a is b for a, b in zip(facts[0]["v2"], facts[1]["v1"]))))
+    V.ensure("post/raises-only-for-a-zero-vector", z3.BoolVal(bool(out.returned)))
     if not out.returned:
-        V.ensure("post/raises-only-for-a-zero-vector", z3.BoolVal(any(e[0] == "np-division-by-zero" for e in st.trace)) if False else z3.BoolVal(False))
         return
     if any(e[0] == "np-division-by-zero" for e in st.trace):
         return      # zero-length input: outside the precondition (a direction is undefined)
